@@ -7,6 +7,10 @@ def _t(n): return open(os.path.join(_d, n)).read()
 KINDS = [('unary', 0, 'UNARY', True, 'dflt_unary'), ('binary', 1, 'BINARY', True, 'dflt_binary'), ('postfix', 2, 'POSTFIX', True, 'dflt_postfix'),
          ('ternary', 3, 'TERNARY', False, 'dflt_ternary'), ('function', 4, 'FUNCTION', True, 'dflt_function'), ('reference', 5, 'REFERENCE', True, 'dflt_reference'),
          ('list', 6, 'LIST', False, 'dflt_list'), ('map', 7, 'MAP', False, 'dflt_map'), ('chain', 8, 'CHAIN', False, 'dflt_chain')]
+def getter_spec(nm, kind, var, named, dflt):
+    name_arg = {'unary': 'op', 'binary': 'op', 'postfix': 'op', 'function': 'name', 'reference': 'name'}.get(nm)
+    nv = (name_arg + '@') if named else 'Seq::<char>::empty()'
+    return "        requires typed(self@),\n        ensures r == (match look(self@, %dint, %s) { Some(Descriptor::%s(f)) => f, _ => %s() }),  // @C18 get.%s" % (kind, nv, var, dflt, nm)
 FNS = [
   F('DescriptorManager::new', trust=True, spec="        ensures typed(r@),   // the store only ever holds entries written by the typed setters"),
   F('DescriptorManager::set', trust=True, spec="        ensures final(self)@ == old(self)@.insert(kv(key), value),"),
@@ -18,7 +22,7 @@ for (nm, kind, var, named, dflt) in KINDS:
     FNS.append(F('DescriptorManager::set_%s_descriptor' % nm, props=['C18'],
         spec="        requires typed(old(self)@),\n        ensures final(self)@ == old(self)@.insert(KV { kind: %dint, name: %s }, Descriptor::%s(descriptor)), typed(final(self)@),  // @C18 set.%s" % (kind, nv, var, nm)))
     FNS.append(F('DescriptorManager::get_%s_descriptor' % nm, props=['C18'],
-        spec="        requires typed(self@),\n        ensures r == (match look(self@, %dint, %s) { Some(Descriptor::%s(f)) => f, _ => %s() }),  // @C18 get.%s" % (kind, nv, var, dflt, nm),
+        spec=getter_spec(nm, kind, var, named, dflt),
         ops=[Ins('entry', '', "        proof { broadcast use axiom_unary_postfix_default; }")]))
 KEYS = set(f.key for f in FNS)
 UNIT = Unit('ds', [
